@@ -141,7 +141,7 @@ class Gen:
             elif kind == "ownreplay":
                 pool.append(self.obs(d, "g1"))
             else:
-                sh = r.choice(["nilhash", "shorthash", "longhash", "niladdr", "shortaddr", "longaddr"])
+                sh = r.choice(["nilhash", "shorthash", "longhash", "prehash", "prehash2", "niladdr", "shortaddr", "longaddr"])
                 o = self.obs(d, m, shape=sh)
                 # malformed hash: recovery fails; malformed address: claimed address is not the signer's
                 if "hash" in sh:
@@ -376,7 +376,7 @@ class Gen:
             if ev["ev"] == "Observation":
                 o = ev["a"]["o"]
                 if r.random() < 0.2:
-                    sh = r.choice(["nilhash", "shorthash", "longhash", "niladdr", "shortaddr", "longaddr"])
+                    sh = r.choice(["nilhash", "shorthash", "longhash", "prehash", "prehash2", "niladdr", "shortaddr", "longaddr"])
                     o["shape"] = sh
                     if "hash" in sh:
                         o["signer"], o["d"], o["over"] = "ERR", "dX", "dX"
@@ -468,7 +468,7 @@ class Gen:
             elif kind == "formerly":
                 steps.append(self.obs(d, r.choice(A["keys"])))
             else:
-                sh = r.choice(["nilhash", "shorthash", "longhash", "niladdr", "shortaddr", "longaddr"])
+                sh = r.choice(["nilhash", "shorthash", "longhash", "prehash", "prehash2", "niladdr", "shortaddr", "longaddr"])
                 o = self.obs(d, k, shape=sh)
                 if "hash" in sh:
                     o["a"]["o"].update(signer="ERR", d="dX", over="dX")
@@ -508,6 +508,34 @@ def with_store_fault(sc, rnd):
     sc["steps"] = steps[:pos] + [{"ev": "StoreDown", "a": {"x": 0}}] + steps[pos:]
     sc["src"] = sc.get("src", "") + "+storedown"
     return sc
+
+
+def quorum_site_scenarios(seed_, sizes):
+    """C07, use sites of the threshold in the node: for each set size n one history that (a) offers inbound signed VAAs
+    with q-1, q, floor(2n/3) and n-floor(n/3) signatures of the set (fresh message ids) and (b) lets the node observe a
+    message itself and delivers the members' observations one by one, so the publication has to happen exactly at
+    the q-th distinct signature."""
+    rnd = random.Random("quorumsites-%d" % seed_)
+    g = Gen(rnd)
+    res = []
+    for n in sizes:
+        A = g.mkset(rnd.randrange(0, 4), n, True)
+        need = q(n)
+        counts = sorted({c for c in (need - 1, need, (2 * n) // 3, n - n // 3, n) if 0 < c <= n})
+        bodies = {"d1": {"id": "i1", "chain": 2}}
+        steps = [{"ev": "SetUpdate", "a": {"set": A}}]
+        for j, c in enumerate(counts):
+            d = "v%d" % j
+            bodies[d] = {"id": "j%d" % j, "chain": 2}
+            steps.append(g.vaa(d, bodies, A, sorted(rnd.sample(range(n), c))))
+        steps.append(g.msg("d1", bodies))
+        steps.append({"ev": "Loopback", "a": {"d": "d1"}})
+        others = [k for k in A["keys"] if k != "g1"]
+        rnd.shuffle(others)
+        for k in others:
+            steps.append(g.obs("d1", k))
+        res.append({"bodies": bodies, "steps": steps, "src": "gen-quorumsites"})
+    return res
 
 
 def gen_scenarios(seed_, n, profile):
